@@ -108,13 +108,13 @@ func (s *Server) rejectPrivateAndLoopbackIPAction(_ context.Context, in egress.I
 		isWellKnownIPv4LocalDomainName := false
 		isWellKnownIPv6LocalDomainName := false
 		for _, d := range wellKnownIPv4LocalDomainNames {
-			if domainName == d {
+			if strings.EqualFold(domainName, d) {
 				isWellKnownIPv4LocalDomainName = true
 				break
 			}
 		}
 		for _, d := range wellKnownIPv6LocalDomainNames {
-			if domainName == d {
+			if strings.EqualFold(domainName, d) {
 				isWellKnownIPv6LocalDomainName = true
 				break
 			}
@@ -129,8 +129,16 @@ func (s *Server) rejectPrivateAndLoopbackIPAction(_ context.Context, in egress.I
 			}
 		}
 	} else if len(ip) == 0 {
-		return egress.Action{
-			Action: appctlpb.EgressAction_DIRECT,
+		// An empty host name is dialed as the local host.
+		ip = net.ParseIP("127.0.0.1")
+	}
+	if ip.IsUnspecified() && req.Command == constant.Socks5ConnectCmd {
+		// Connecting to 0.0.0.0 or :: reaches the local host.
+		// UDP associate requests legitimately carry an all-zero address.
+		if ip.To4() != nil {
+			ip = net.ParseIP("127.0.0.1")
+		} else {
+			ip = net.ParseIP("::1")
 		}
 	}
 
